@@ -533,6 +533,10 @@ class Ev:
             return LibV("numpy.float64")
         if isinstance(v, ArrV) and name in ("tolist", "flatten", "ravel"):
             return BoundLib(f"arr.{name}", v)
+        if isinstance(v, ArrV) and name in ("conj", "conjugate"):
+            return BoundLib("numpy.conj", v)
+        if isinstance(v, ArrV) and name == "setflags":
+            return BoundLib("ndarray.setflags", v)
         if isinstance(v, ArrV) and name == "tobytes":
             return BoundLib("ndarray.tobytes", v)
         if isinstance(v, ArrV) and name == "ndim":
@@ -743,6 +747,9 @@ class Ev:
             return mod.name
         if name == "__file__" and mod is not None:
             return f"<package>/{mod.rel}"
+        import builtins as _bi
+        if hasattr(_bi, name):
+            raise self.err(f"builtin {name} has no transfer function (T-LIB)", node, mod)
         if mod is not None and not getattr(mod, "star_imports", None):
             # no binding in any enclosing scope, the module or the builtins (and no star import that could supply it): NameError
             e = RaisedV("NameError", f"{mod.rel}:{getattr(node, 'lineno', 0)}")
@@ -1208,6 +1215,11 @@ class Ev:
         t = self.truth(self.eval(n.test, env, mod), n.test, mod)
         return self.eval(n.body if t else n.orelse, env, mod)
 
+    def e_NamedExpr(self, n, env, mod):
+        v = self.eval(n.value, env, mod)
+        self.assign(n.target, v, env, mod)
+        return v
+
     def e_Lambda(self, n, env, mod):
         return LambdaV(n, dict(env), mod)
 
@@ -1351,7 +1363,7 @@ class Ev:
                 self._first_iter = None
             else:
                 itv = self.eval(g.iter, env, mod)
-            if getattr(itv, "elementwise_seq", False):
+            if getattr(itv, "elementwise_seq", False) or getattr(itv, "elementwise", False):
                 flags.append(True)
             for item in self.iterate(itv, g.iter, mod):
                 e2 = dict(env)
@@ -1412,6 +1424,14 @@ class Ev:
             else:
                 kwargs[k.arg] = self.eval(k.value, env, mod)
         self._param_masks = None
+        out_kw = next((k for k in n.keywords if k.arg == "out" and isinstance(k.value, ast.Name)), None)
+        if out_kw is not None and isinstance(f, LibV) and f.name.split(".")[0] == "numpy" and not isinstance(kwargs.get("out"), ArrV):
+            # numpy.<ufunc>(..., out=<local>): the result is computed and the local then holds it (aliasing with the caller's
+            # array is the effects analysis' business)
+            kw2 = {kk: vv for kk, vv in kwargs.items() if kk != "out"}
+            result = self.call(f, args, kw2, n, mod)
+            self.assign(ast.Name(id=out_kw.value.id, ctx=ast.Store()), result, env, mod)
+            return result
         result = self.call(f, args, kwargs, n, mod)
         pm = getattr(self, "_param_masks", None)
         if pm:
@@ -1496,6 +1516,13 @@ class Ev:
                 obj.attrs[fname] = v
             for k, v in kwargs.items():
                 obj.attrs[k] = v
+            # fields with a default value in the class body
+            for s_ in c.body:
+                if isinstance(s_, ast.AnnAssign) and isinstance(s_.target, ast.Name) and s_.value is not None and s_.target.id not in obj.attrs:
+                    obj.attrs[s_.target.id] = self.eval(s_.value, {}, self.model.mods[cref.split(":")[0]])
+            missing = [f_ for f_ in fields if f_ not in obj.attrs]
+            if missing or len(args) > len(fields):
+                raise RaisedV("TypeError", f"{mod.rel}:{getattr(n, 'lineno', 0)}" if mod else "")
             obj.attrs["__fields__"] = fields
             return obj
         for bname in self.model.mro(cref):
@@ -1753,9 +1780,14 @@ class Ev:
         if isinstance(st.value, ast.Yield):
             env["__yields__"].append(self.eval(st.value.value, env, mod) if st.value.value is not None else None)
             return
-        if isinstance(st.value, ast.Call):
+        if isinstance(st.value, ast.YieldFrom):
+            env["__yields__"].extend(self.iterate(self.eval(st.value.value, env, mod), st, mod))
+            return
+        if isinstance(st.value, (ast.Call, ast.NamedExpr)):
             self.eval(st.value, env, mod)
             return
+        if isinstance(st.value, ast.Constant):
+            return          # a string / Ellipsis statement
         raise self.err("expression statement", st, mod)
 
     def s_If(self, st, env, mod):
@@ -2042,6 +2074,70 @@ class LazyGen:
                 raise
 
 
+class LazyIter:
+    """map / filter / dropwhile / takewhile / chain over a cursor (an object handing out items one at a time): item by item"""
+
+    def __init__(self, ev, kind, fn, source, n=None, mod=None):
+        self.ev, self.kind, self.fn, self.source, self.n, self.mod = ev, kind, fn, source, n, mod
+        self.dropping = True
+        self.done = False
+
+    def _pull(self):
+        src_ = self.source
+        if hasattr(src_, "sym_next"):
+            return src_.sym_next(self.ev)
+        if not hasattr(self, "_buf"):
+            self._buf = list(self.ev.iterate(src_, self.n, self.mod))
+        if not self._buf:
+            raise RaisedV("StopIteration")
+        return self._buf.pop(0)
+
+    def _test(self, item):
+        if self.fn is None:
+            return self.ev.truth(item, self.n, self.mod)
+        return self.ev.truth(self.ev.call(self.fn, [item], {}, self.n, self.mod), self.n, self.mod)
+
+    def sym_next(self, ev=None):
+        count = 0
+        while True:
+            count += 1
+            if count > 100000:
+                raise self.ev.err("iterator folding bound exceeded", self.n, self.mod)
+            if self.done:
+                raise RaisedV("StopIteration")
+            item = self._pull()
+            if self.kind == "map":
+                return self.ev.call(self.fn, [item], {}, self.n, self.mod)
+            if self.kind == "filter":
+                if self._test(item):
+                    return item
+                continue
+            if self.kind == "dropwhile":
+                if self.dropping and self._test(item):
+                    continue
+                self.dropping = False
+                return item
+            if self.kind == "takewhile":
+                if self._test(item):
+                    return item
+                self.done = True
+                raise RaisedV("StopIteration")
+            raise self.ev.err(f"lazy iterator kind {self.kind}", self.n, self.mod)
+
+    def nxt(self):
+        return self.sym_next(self.ev)
+
+    def sym_iter(self, ev, n, mod):
+        out = []
+        while True:
+            try:
+                out.append(self.sym_next(ev))
+            except RaisedV as e:
+                if e.exc_name == "StopIteration":
+                    return out
+                raise
+
+
 class SliceV:
     def __init__(self, lo, hi, step):
         self.lo, self.hi, self.step = lo, hi, step
@@ -2106,7 +2202,7 @@ STR_METHODS = {"lower", "upper", "strip", "split", "startswith", "endswith", "jo
 
 BUILTINS = {"id", "frozenset", "len", "range", "tuple", "list", "sorted", "zip", "map", "int", "float", "str", "sum", "abs", "min",
             "max", "round", "set", "dict", "enumerate", "isinstance", "next", "reversed", "any", "all", "open",
-            "print", "type", "callable", "getattr", "repr", "hash", "bool", "slice", "setattr", "property", "hasattr", "object"}
+            "print", "type", "callable", "getattr", "repr", "hash", "bool", "slice", "setattr", "property", "hasattr", "object", "filter"}
 
 
 _LOC_CACHE, _GEN_CACHE = {}, {}
@@ -2296,7 +2392,17 @@ def lib_list_misc(name):
 
 
 def lib_zip(ev, a, k, n, mod):
-    return Tup([Tup(t) for t in zip(*[ev.iterate(x, n, mod) for x in a])], "list")
+    out = Tup([Tup(t) for t in zip(*[ev.iterate(x, n, mod) for x in a])], "list")
+    summarised = [x for x in a if getattr(x, "elementwise_seq", False) or getattr(x, "elementwise", False)]
+    if summarised and len(out.items) == 1:
+        # sequences folded as ONE "all rows" element stay so when zipped: enumerate() then hands out the all-rows index
+        owner = next((x for x in summarised if hasattr(x, "sym_enumerate")), None)
+        out.elementwise_seq = True
+        out.elementwise = True
+        if owner is not None:
+            idx = owner.sym_enumerate(ev, n, mod).items[0].items[0]
+            out.sym_enumerate = lambda ev_, n_, mod_, idx=idx, out=out: Tup([Tup([idx, out.items[0]])], "list")
+    return out
 
 
 def lib_product(ev, a, k, n, mod):
@@ -3454,6 +3560,8 @@ def _binary(op):
 
 def lib_map(ev, a, k, n, mod):
     fn = a[0]
+    if len(a) == 2 and hasattr(a[1], "sym_next"):
+        return LazyIter(ev, "map", fn, a[1], n, mod)
     seqs = [ev.iterate(x, n, mod) for x in a[1:]]
     return Tup([ev.call(fn, list(args), {}, n, mod) for args in zip(*seqs)], "list")
 
@@ -3504,6 +3612,40 @@ lib_round.kw = {"ndigits"}
 LIB.setdefault("round", lib_round)
 
 
+def lib_lazy(kind):
+    def f(ev, a, k, n, mod):
+        fn, source = a[0], a[1]
+        if hasattr(source, "sym_next"):
+            return LazyIter(ev, kind, fn, source, n, mod)
+        it = LazyIter(ev, kind, fn, source, n, mod)
+        return Tup(it.sym_iter(ev, n, mod), "list")
+    return f
+
+
+def lib_chain(ev, a, k, n, mod):
+    out = []
+    for part in a:
+        out.extend(ev.iterate(part, n, mod))
+    return Tup(out, "list")
+
+
+def lib_chain_from_iterable(ev, a, k, n, mod):
+    out = []
+    for part in ev.iterate(a[0], n, mod):
+        out.extend(ev.iterate(part, n, mod))
+    return Tup(out, "list")
+
+
+def lib_starmap(ev, a, k, n, mod):
+    return Tup([ev.call(a[0], list(ev.iterate(args, n, mod)), {}, n, mod) for args in ev.iterate(a[1], n, mod)], "list")
+
+
+LIB.update({"filter": lib_lazy("filter"), "itertools.dropwhile": lib_lazy("dropwhile"), "itertools.takewhile": lib_lazy("takewhile"),
+            "itertools.filterfalse": None, "itertools.chain": lib_chain, "itertools.chain.from_iterable": lib_chain_from_iterable,
+            "itertools.starmap": lib_starmap})
+LIB.pop("itertools.filterfalse")
+
+
 def lib_property(ev, a, k, n, mod):
     fget = a[0] if a else k.get("fget")
     if fget is None or len(a) > 1 or set(k) - {"fget", "doc"}:
@@ -3526,6 +3668,37 @@ def lib_hasattr(ev, a, k, n, mod):
 
 
 LIB["hasattr"] = lib_hasattr
+
+
+def lib_ufunc2(opcls):
+    """numpy.add/subtract/multiply/divide(a, b[, out=a]): elementwise; with out= the result is also stored into that array"""
+    def f(ev, a, k, n, mod):
+        r = ev.binop(opcls(), a[0], a[1], n, mod)
+        out = k.get("out", a[2] if len(a) > 2 else None)
+        if out is None:
+            return r
+        if isinstance(out, Tup) and len(out.items) == 1:
+            out = out.items[0]
+        if isinstance(out, ArrV) and isinstance(r, ArrV):
+            out.batch, out.shape, out.fill, out.cells, out.batch_last = r.batch, r.shape, r.fill, dict(r.cells), r.batch_last
+            ev.epoch += 1
+            return out
+        raise ev.err("ufunc with out= on a value that is not a small array", n, mod)
+    f.kw = {"out"}
+    return f
+
+
+for _nm, _op in (("add", ast.Add), ("subtract", ast.Sub), ("multiply", ast.Mult), ("divide", ast.Div), ("true_divide", ast.Div), ("power", ast.Pow)):
+    LIB[f"numpy.{_nm}"] = lib_ufunc2(_op)
+
+
+def lib_setflags(ev, a, k, n, mod):
+    # writeable/aligned flags have no effect on values
+    return None
+
+
+lib_setflags.kw = {"write", "align", "uic"}
+LIB["ndarray.setflags"] = lib_setflags
 # NamedTuple._make(iterable): the record built from the items in field order
 LIB["namedtuple._make"] = lambda ev, a, k, n, mod: ev.construct(a[0].ref, list(ev.iterate(a[1], n, mod)), {})
 
